@@ -383,7 +383,7 @@ def ask(ctx):
 
 # ---------------------------------------------------------------- binding B
 def record_and_validate(ctx):
-    num = 60 if ctx.tier == "quick" else 400
+    num = 60 if ctx.tier == "quick" else 300
     t = os.path.join(ctx.work, "trace.ndjson")
     ctx.vh([ID, "record", "--num", num, "--out", t], timeout=900)
     events = core.read_ndjson(t)
@@ -493,7 +493,7 @@ def run(ctx):
         candidates(ctx)
     # 2. binding A
     if "replay" in parts:
-        for cfg, num, depth in (("Handover_sim.cfg", 120 if quick else 1500, 120), ("Handover_sim2.cfg", 120 if quick else 1500, 120)):
+        for cfg, num, depth in (("Handover_sim.cfg", 120 if quick else 1000, 120), ("Handover_sim2.cfg", 120 if quick else 1000, 120)):
             params, lim = cfg_params(ctx, cfg)
             if lim["FinishRetry"] != 33 or lim["CancelRetry"] != 3:
                 raise core.MachineryError("%s must use the retry limits of the code (33, 3)" % cfg)
